@@ -10,7 +10,7 @@ from concurrent.futures import ThreadPoolExecutor
 VERIF = os.path.dirname(os.path.dirname(os.path.abspath(__file__)))
 REPO = os.environ.get('VERIF_REPO', '/repo')
 SFX = os.path.join(VERIF, 'tools', 'sfx', 'sfx')
-CACHE = os.path.join(VERIF, '.cache')
+CACHE = os.environ.get('VERIF_CACHE') or os.path.join(VERIF, '.cache')
 TARGET_PREFIX = 'CMakeFiles/sndfile.dir/'
 
 
@@ -32,6 +32,13 @@ def _compdb(repo):
     """returns (entries for the sndfile library target, build dir used, scratch dir to remove or None)"""
     bdir = os.path.join(repo, '_build')
     scratch = None
+    donor = os.environ.get('VERIF_COMPDB_FROM')
+    rewrite = None
+    if donor and os.path.abspath(donor) != os.path.abspath(repo) and not os.path.exists(os.path.join(bdir, 'build.ninja')):
+        # scratch copy of the sources (positive controls): flags and generated headers come from the donor's
+        # build directory, source and header paths are redirected to the copy
+        bdir = os.path.join(donor, '_build')
+        rewrite = (os.path.abspath(donor), os.path.abspath(repo))
     if not os.path.exists(os.path.join(bdir, 'build.ninja')) or not os.path.exists(os.path.join(bdir, 'src', 'config.h')):
         scratch = tempfile.mkdtemp(prefix='sfverif-build-')
         r = subprocess.run(['cmake', '-G', 'Ninja', '-S', repo, '-B', scratch, '-DCMAKE_BUILD_TYPE=RelWithDebInfo'],
@@ -50,6 +57,12 @@ def _compdb(repo):
         if e['file'] in seen:
             continue
         seen.add(e['file'])
+        if rewrite:
+            a, b = rewrite
+            e = dict(e)
+            for sub in ('src', 'include'):
+                e['file'] = e['file'].replace(a + '/' + sub + '/', b + '/' + sub + '/')
+                e['command'] = e['command'].replace(a + '/' + sub, b + '/' + sub)
         ents.append(e)
     return ents, bdir, scratch
 
@@ -76,19 +89,49 @@ def _tree_hash(repo, ents, bdir, extra):
     return h.hexdigest()[:20]
 
 
-def extract(repo=None, extra_args=(), tag='base', only=None):
+OVERLAYS = {
+    # name: ({macro: value} rewritten in the generated config.h, extra compiler args)
+    'be': ({'CPU_IS_BIG_ENDIAN': '1', 'CPU_IS_LITTLE_ENDIAN': '0', 'WORDS_BIGENDIAN': '1'}, []),
+    'nosse': ({'HAVE_LRINT': '0', 'HAVE_LRINTF': '0'}, ['-U__SSE2__']),
+    'experimental': ({'ENABLE_EXPERIMENTAL_CODE': '1'}, []),
+}
+
+
+def _overlay(name, bdir):
+    """configuration overlay: a rewritten copy of the generated config.h placed first on the include path
+    (syntax-only analysis, so no cross toolchain is needed).  Returns (extra args, tag)."""
+    import re
+    defs, args = OVERLAYS[name]
+    src = open(os.path.join(bdir, 'src', 'config.h')).read()
+    for k, v in defs.items():
+        src, n = re.subn(r'(?m)^#define\s+%s\s+\S+\s*$' % k, '#define %s %s' % (k, v), src)
+        if n != 1:
+            raise AnalysisBroken('overlay %s: macro %s not found exactly once in config.h' % (name, k))
+    tag = name + '-' + hashlib.sha1(src.encode()).hexdigest()[:10]
+    odir = os.path.join(CACHE, 'overlay', tag)
+    os.makedirs(odir, exist_ok=True)
+    f = os.path.join(odir, 'config.h')
+    if not os.path.exists(f) or open(f).read() != src:
+        open(f, 'w').write(src)
+    return ['-I' + odir] + list(args), tag
+
+
+def extract(repo=None, extra_args=(), tag='base', only=None, overlay=None):
     """Extract facts for all units of the sndfile target.  Returns (facts_dir, info dict)."""
     repo = repo or REPO
     t0 = time.time()
     build_sfx()
     ents, bdir, scratch = _compdb(repo)
     try:
+        if overlay:
+            oargs, tag = _overlay(overlay, bdir)
+            extra_args = list(extra_args) + oargs
         if len(ents) < 60:
             raise AnalysisBroken('compile database lists only %d units for target sndfile' % len(ents))
         key = _tree_hash(repo, ents, bdir, (tuple(extra_args), tag))
         fdir = os.path.join(CACHE, 'facts', key)
         done = os.path.join(fdir, '.done')
-        info = {'units': len(ents), 'key': key, 'cached': os.path.exists(done), 'build_dir': bdir}
+        info = {'units': len(ents), 'key': key, 'cached': os.path.exists(done), 'build_dir': bdir, 'overlay': overlay}
         if not os.path.exists(done):
             if os.path.isdir(fdir):
                 shutil.rmtree(fdir)
